@@ -81,18 +81,73 @@ def p_observe(t):
                                                     p.is_valid() if hasattr(p, 'is_valid') else None, p.is_valid(strict=True) if hasattr(p, 'is_valid') else None,
                                                     repr(p), p == copy.deepcopy(p)) for p in c.paragraphs]),
                  ('get_paragraphs_by_type', lambda: [getattr(c, n)() for n in dir(c) if n.startswith('get_') and n.endswith('paragraphs')])]
-        for name, look in looks + looks[::-1]:
+        # what an object asked one question only answers
+        ref = {'is_valid()': dc.DebianCopyright.from_text(t).is_valid(), 'is_valid(strict=True)': dc.DebianCopyright.from_text(t).is_valid(strict=True),
+               'dumps()': dc.DebianCopyright.from_text(t).dumps()}
+        for name, look in looks[1:2] + looks[:1] + looks + looks[::-1]:
             try:
-                look()
+                ans = look()
             except Exception as e:  # noqa
                 if name in ('is_valid()', 'is_valid(strict=True)', 'dumps()'):
                     return '%s raises %s' % (name, type(e).__name__)
+                ans = None
+            if name in ref and (bool(ans) != bool(ref[name]) if name != 'dumps()' else ans != ref[name]):
+                return '%s answers %r on an object that was asked other questions before, %r on a new one' % (name, ans, ref[name])
             now = _snap(c)
             if now != snap:
                 return 'after %s the object reports %s, as built it reported %s' % (name, now[:600], snap[:600])
+        # validity follows the paragraphs the object holds now
+        c3 = dc.DebianCopyright.from_text(t)
+        c3.is_valid(), c3.is_valid(strict=True)
+        for keep in (lambda p: not isinstance(p, dc.CopyrightFilesParagraph), lambda p: not isinstance(p, dc.CopyrightHeaderParagraph), lambda p: False):
+            left = [p for p in c3.paragraphs if keep(p)]
+            c3.paragraphs = left
+            for strict in (False, True):
+                want = dc.DebianCopyright(paragraphs=list(left)).is_valid(strict=strict)
+                got = c3.is_valid(strict=strict)
+                if bool(got) != bool(want):
+                    return 'after paragraphs were taken out, is_valid(strict=%r) answers %r; an object built from the paragraphs left answers %r' % (strict, got, want)
         c2 = dc.DebianCopyright.from_text(t)
         if _snap(c2) != snap:
             return 'a second object built from the same text differs from the first'
     except Exception as e:  # noqa
         return 'raises %s' % type(e).__name__
+    return None
+
+
+def large_copyright_texts(rng, quick=True):
+    """copyright texts beyond 64 KiB (and one beyond 1 MiB) in which a line end, a CR LF pair, an empty line inside a
+    value or a paragraph separator lies exactly on every multiple of 4096 characters - hence on every multiple of any
+    larger block a reader may use; every line holds a word of its own"""
+    from harness.gen import texts as G
+
+    def unit(i):
+        return ['Files: f%d.c' % i, 'Copyright: 2019 holder%d' % i, 'License: L%d' % i, ' text%d first' % i, ' more%d' % i, ' last%d of it' % i]
+    out = []
+    for feat, size in [('line-start', 140000), ('crlf-straddle', 140000), ('blank-start', 140000), ('sep-straddle', 140000), ('marker-start', 140000),
+                       ('line-start', 1150000)] + ([] if quick else [('crlf-straddle', 2300000), ('sep:3:2', 2300000)]):
+        t = G.aligned_text(rng, size, feat, head='Format: https://www.debian.org/doc/packaging-manuals/copyright-format/1.0/' + ('\r\n\r\n' if feat == 'crlf-straddle' else '\n\n'),
+                           unit=unit, gaps=feat in ('line-start', 'crlf-straddle'))
+        out.append(t)
+        out.append(t.rstrip('\r\n'))       # the same without a final line end
+    return out
+
+
+def p_routes_agree(x):
+    """DebianCopyright.from_file on a UTF-8 file holding the text gives the object from_text gives"""
+    import os
+    path, t = x
+    with open(path, 'w', encoding='utf-8', newline='') as f:
+        f.write(t)
+    try:
+        a = dc.DebianCopyright.from_file(path)
+        b = dc.DebianCopyright.from_text(t)
+        sa, sb = _snap(a), _snap(b)
+    except Exception as e:  # noqa
+        return 'raises %s' % type(e).__name__
+    finally:
+        os.unlink(path)
+    if sa != sb:
+        k = next(i for i in range(min(len(sa), len(sb)) + 1) if sa[i:i + 1] != sb[i:i + 1])
+        return 'the object read from a file differs from the object built from the text (%d characters): ...%s against ...%s' % (len(t), sa[max(0, k - 60):k + 80], sb[max(0, k - 60):k + 80])
     return None
